@@ -65,7 +65,11 @@ class C15(PropBase):
         ntab = 3 if tier == "quick" else 12
         for ti in range(ntab):
             addrs, pre, body = self.table(rng)
-            ops = ["reset", gen.cfg_op(relaxed=True, groups="e", order="", delete_after=600, observer="52.66,-8.62"), "case 0"] + gen.seg(pre) + gen.seg(body) + ["dump"]
+            # the table is printed right away, or 31 / 45 / 95 s after the last position (the aircraft kept talking: a DF11 each) -
+            # the key the rows are ordered by is the key the rows show, however old it is
+            age = [0, 31000, 45000, 95000][ti % 4]
+            later = (["adv %d" % age] + gen.seg([F.df11(5, a, 0) for a in addrs])) if age else []
+            ops = ["reset", gen.cfg_op(relaxed=True, groups="e", order="", delete_after=600, observer="52.66,-8.62"), "case 0"] + gen.seg(pre) + gen.seg(body) + later + ["dump"]
             for o in orders:
                 ops += [gen.cfg_op(order=o), "render"]
             impl, so, model = run.execute(ops, model=driver_ok)
@@ -97,6 +101,21 @@ class C15(PropBase):
                     continue   # 'C' is not among the property's keys: rows sorted by it are not constrained
                 fn, direction = keyfun(last)
                 vals = [fn(rows[a]) for a in printed]
+                # the key cell of a row is blank exactly when the row has no value for the key: an ordering by a value the row
+                # does not show (or the other way round) is not "this key monotone down the table"
+                col = {"s": "SQWK", "a": "ALT B", "A": "ALT B", "v": "VRATE", "V": "VRATE", "N": "LATITUDE", "S": "LATITUDE", "W": "LONGITUDE",
+                       "E": "LONGITUDE", "d": "DIST", "D": "DIST"}.get(last)
+                hc = {n: (p_, w_) for n, p_, w_ in RC.header_cells(ir[oi][0])}
+                if col in hc:
+                    p_, w_ = hc[col]
+                    for t, a, v in zip([t for t in ir[oi][2:] if len(t) >= 6], printed, vals):
+                        cell = t[p_:p_ + w_].strip()
+                        if len(t.rstrip("\n")) != len(ir[oi][0].rstrip("\n")):
+                            continue      # a value wider than its column shifts the cells after it (C14 says when rows line up)
+                        if (cell == "") != (v is None):
+                            self.fail(rep, f"-o {o!r}: aircraft {a:06X} is placed by {col} = {v}, its {col} cell shows {cell!r}",
+                                      {"ops": ops[:ops.index('dump') + 1] + [gen.cfg_op(order=o), "render"], "key": last, "order": o, "address": a})
+                            return
                 known = [v for v in vals if v is not None]
                 ok = all((known[i] <= known[i + 1]) if direction == 1 else (known[i] >= known[i + 1]) for i in range(len(known) - 1))
                 if not ok:
